@@ -120,6 +120,23 @@ CLAIMED = {
         "Trusted: symx; m<=2 rows (3 thorough), shapes listed; 'all fitted states' = arbitrary parameter symbols of those shapes; "
         "Kauri trees = all shapes with <=3 leaves (4 thorough) over 2 features.",
         "DESIGN.md §4 C18", "symbolic execution of the repository source (symx): symbolic values/indices, decisions forked with z3 feasibility, post-conditions by term identity or path evaluation"),
+    "C07": (
+        "Symbolic model checking of the path control loop: the real _path / path run against an environment whose numerics are "
+        "arbitrary values of a weight-version counter (symbolic real scores or NaN, symbolic integer feature counts, symbolic "
+        "penalties; in-place version tagging of the weight arrays), with symbolic alpha, alpha_multiplier, keep_threshold, "
+        "early_stopping_factor and min_features; every comparison of the loop is forked and each path's histories, stopping, "
+        "best weights, restoration and argument sanitisation are compared with a reference model of the documented contract.",
+        "Trusted: the reference model of the contract (written from the docstrings); the stub environment; unwinding bound: features "
+        "are forced to 0 after 2 outer steps (3 thorough), max_iter<=2, max_patience<=2, <=2 batches, d in {2,3}.",
+        "DESIGN.md §4 C07", "symbolic execution of the repository source (symx): symbolic values/indices, decisions forked with z3 feasibility, post-conditions by term identity or path evaluation"),
+    "C14": (
+        "Symbolic execution of the real constraint validation with symbolic-integer end points (every aliasing / non-contiguous "
+        "pattern forked): rejected <=> self pair or a cannot-link pair inside a must-link component (union-find oracle); the real "
+        "gradient decoration with every ordered batch selection, symbolic predictions, upstream gradient and factor: the gradient "
+        "handed on differs by exactly +-factor*(y_a-y_b) at the members' batch positions (term identity); malformed inputs concretely.",
+        "Trusted: symx; index values in [0,B] (B<=3 quick, <=5 thorough), m<=2 (3) must-link and c<=2 cannot-link pairs; check_array on "
+        "pair lists stubbed to identity.",
+        "DESIGN.md §4 C14", "symbolic execution of the repository source (symx): symbolic values/indices, decisions forked with z3 feasibility, post-conditions by term identity or path evaluation"),
 }
 
 NOT_APPLICABLE = {
